@@ -1,11 +1,16 @@
 """C39 — declared-independent transitions commute; the dependency relation is symmetric.
 
 T: gen/deplut.py re-executes the consteval builder chain of Transition.cpp into Gen/DepLut.v; the theorems over it
-   (symmetry for all transitions; commutation + mutual non-disabling on the mutex and semaphore kernel) are re-checked.
+   (symmetry for all transitions; commutation + mutual non-disabling on the mutex, semaphore, barrier, actor, random and
+   communication kernel) are re-checked.
 K: random synthetic pairs of transitions, built by the real deserialize_transition(), go through the real
    Transition::dispatch_depends in both orders and through the extracted model; random operation sequences go through
-   the real MutexImpl / SemaphoreImpl and through the kernel model the commutation theorem is about.
-O: on the real code, depends(t1,t2) must equal depends(t2,t1)."""
+   the real MutexImpl / SemaphoreImpl / BarrierImpl / MailboxImpl+CommImpl (kernel in MC mode; every step re-described by
+   the real observer's serialize() -> deserialize_transition()) and through the kernel model the commutation theorem is
+   about; the verdict of the real dispatch_depends on every adjacent pair of a comm sequence is compared with the model's.
+O: on the real code, depends(t1,t2) must equal depends(t2,t1); two co-enabled steps of different actors that the real
+   dispatch_depends declares independent must leave the real kernel objects in the same state in either order
+   (barriers: queue and granted sets; communications: requests, their pairing, mailbox queues, values returned)."""
 import json, os, sys
 import fw
 
@@ -119,7 +124,7 @@ class Model:
 
 
 def run(ctx):
-    ctx.simgrid(["simgrid"])
+    ctx.simgrid(["simgrid"] if ctx.quick else ["simgrid", "simgrid-mc"])
     rep = json.load(open(ctx.replay))["case"] if ctx.replay else None
     lut = None
     try:
@@ -143,7 +148,8 @@ def run(ctx):
                        "included, object ids in 0..2 so that collisions are frequent) evaluated by the real dispatch_depends in both "
                        "orders, or one operation sequence on a real mutex/semaphore; non-trivial = the pair is declared dependent or "
                        "shares an object / the sequence has a contended acquisition")
-    dist = {"pairs": 0, "dependent": 0, "died": 0, "mutex_seqs": 0, "sem_seqs": 0, "model_counterexamples": 0}
+    dist = {"pairs": 0, "dependent": 0, "died": 0, "mutex_seqs": 0, "sem_seqs": 0, "barrier_seqs": 0, "comm_seqs": 0,
+            "comm_adjacent_verdicts": 0, "barrier_pairs": 0, "comm_pairs": 0, "comm_pairs_independent": 0, "model_counterexamples": 0}
 
     # ---- pairs through the real dispatch_depends
     n = ctx.n(1500, 30000)
@@ -230,6 +236,229 @@ def run(ctx):
         if got != states:
             ctx.mismatch("McKernel.sstep", "real SemaphoreImpl and the model disagree on capacity %d ops %s: real %s, model %s" % (seq[0], ops, got, states), {"kind": "sseq", "seq": seq})
 
+
+    # ---- barriers: the kernel model against the real BarrierImpl
+    bseqs = [[ctx.rng.randint(1, 3)] + [x for _ in range(ctx.rng.randint(1, 12)) for x in (ctx.rng.randint(1, 4), ctx.rng.choice([0, 0, 1]))] for _ in range(nseq)]
+    bm = model.run("run_c39_bar_seq", bseqs)
+
+    def split_bar(ans, seq):
+        pos, ops, states = 0, [], []
+        for i in range(0, len(seq), 2):
+            if ans[pos] == 0:
+                pos += 1
+                continue
+            k = ans[pos + 1]
+            q = ans[pos + 2:pos + 2 + k]
+            g = ans[pos + 2 + k]
+            gr = sorted(ans[pos + 3 + k:pos + 3 + k + g])
+            pos += 3 + k + g
+            states.append([k] + q + [g] + gr)
+            ops += [seq[i], seq[i + 1]]
+        return ops, states
+
+    plans = [split_bar(a, s[1:]) for a, s in zip(bm, bseqs)]
+    real = drive(["bseq %d " % s[0] + " ".join(map(str, ops)) for (ops, _), s in zip(plans, bseqs)]) if plans else []
+    for (ops, states), r, seq in zip(plans, real, bseqs):
+        dist["barrier_seqs"] += 1
+        got = [[int(x) for x in part.split()] for part in r.split(";") if part.strip()]
+        ctx.case(("bseq", tuple(seq)), any(s[0] > 0 for s in states))
+        if got != states:
+            ctx.mismatch("McKernel2.bstep", "real BarrierImpl and the model disagree on expected %d ops %s: real %s, model %s" % (seq[0], ops, got, states), {"kind": "bseq", "seq": seq})
+
+    # ---- barriers: two arrivals of different actors, both orders on the real BarrierImpl, against the real verdict
+    bpairs = []
+    if rep and rep.get("kind") == "bpair":
+        bpairs = [rep["bpair"]]
+    elif not rep:
+        bpairs = [[2, [3], 1, 2], [3, [4], 1, 2], [3, [4, 3], 1, 2], [1, [], 1, 2], [2, [], 1, 2]]
+        for _ in range(ctx.n(40, 600)):
+            n = ctx.rng.randint(1, 4)
+            q = ctx.rng.sample([3, 4, 5], ctx.rng.randint(0, min(3, n - 1)))
+            bpairs.append([n, q, 1, 2])
+    lock = le(names.index("BARRIER_ASYNC_LOCK"), 4) + le(0, 4)
+    verdict = drive(["dep 1 0 %s | 2 0 %s" % (" ".join(map(str, lock)), " ".join(map(str, lock)))])[0] if bpairs else "1 1"
+    bar_indep = verdict.split()[0] == "0"
+    lines = []
+    for n, q, a1, a2 in bpairs:
+        pre = " ".join("%d 0" % x for x in q)
+        lines += ["bseq %d %s %d 0 %d 0" % (n, pre, a1, a2), "bseq %d %s %d 0 %d 0" % (n, pre, a2, a1)]
+    real = drive(lines) if lines else []
+    mres = model.run("run_c39_bar_pair", [[n, len(q)] + q + [a1, a2] for n, q, a1, a2 in bpairs])
+    for i, (bp, mr) in enumerate(zip(bpairs, mres)):
+        dist["barrier_pairs"] += 1
+        n, q, a1, a2 = bp
+        fin = []
+        for r in (real[2 * i], real[2 * i + 1]):
+            last = [int(x) for x in [part for part in r.split(";") if part.strip()][-1].split()]
+            k = last[0]
+            fin.append((sorted(last[1:1 + k]), sorted(last[2 + k:])))
+        same = fin[0] == fin[1]
+        ctx.case(("bpair", n, tuple(q)), len(q) > 0)
+        if (mr[1] == 1) != same or (mr[2] == 0) != bar_indep:
+            ctx.mismatch("McKernel2.bstep", "two arrivals on a barrier of %d with %s waiting: the model says commute=%d indep=%d, the real kernel %s / %s" %
+                         (n, q, mr[1], 1 - mr[2], same, bar_indep), {"kind": "bpair", "bpair": bp})
+        if bar_indep and not same:
+            known = n >= 2 and len(q) == n - 1
+            ctx.fail("barrier-lock-lock-oversubscribed" if known else "barrier-lock-lock-noncommute",
+                     "dispatch_depends declares two BARRIER_ASYNC_LOCK independent, but on a real barrier of %d with %s already waiting, actors %d then %d "
+                     "leave (queue, granted) = %s and %d then %d leave %s" % (n, q, a1, a2, fin[0], a2, a1, fin[1]), {"kind": "bpair", "bpair": bp})
+
+    # ---- communications: the kernel model against the real MailboxImpl / CommImpl, step descriptions and verdicts included
+    def gen_cseq(length):
+        seq, cnt = [], {}
+        for _ in range(length):
+            a = ctx.rng.randint(1, 4)
+            c = ctx.rng.choice([0, 0, 1, 1, 2, 2, 3, 4, 5])
+            if c in (2, 3):
+                arg = ctx.rng.randrange(cnt[a]) if cnt.get(a) and ctx.rng.random() < 0.9 else ctx.rng.randint(0, 2)
+            else:
+                arg = ctx.rng.randint(0, 2) if ctx.rng.random() < 0.3 else 0
+                if c < 2:
+                    cnt[a] = cnt.get(a, 0) + 1
+            seq += [a, c, arg]
+        return seq
+
+    def model_ops(ans, seq):
+        """-> (enabled subsequence, per op [ret, ty, actor, rank, mbox, snd, rcv, queue [(is_send, actor, rank)]])"""
+        pos, ops, out = 0, [], []
+        for i in range(0, len(seq), 3):
+            if ans[pos] == 0:
+                pos += 1
+                continue
+            ret, ty, a, rk, mb, snd, rcv, n = ans[pos + 1:pos + 9]
+            q = [tuple(ans[pos + 9 + 3 * j:pos + 12 + 3 * j]) for j in range(n)]
+            pos += 9 + 3 * n
+            ops += seq[i:i + 3]
+            out.append([ret, ty, a, rk, mb, snd, rcv, q])
+        return ops, out
+
+    def parse_real(line):
+        body, rest = line.split("|")
+        deps, reqs, boxes = rest.split("#")
+        steps = [[int(x) for x in part.split()] for part in body.split(";") if part.strip()]
+        rq = [int(x) for x in reqs.split()]
+        requests = [tuple(rq[i:i + 5]) for i in range(0, len(rq), 5)]     # actor rank comm src dst
+        bx = [int(x) for x in boxes.split()]
+        queues, pos = [], 0
+        while pos < len(bx):
+            n = bx[pos]
+            queues.append([tuple(bx[pos + 1 + 3 * j:pos + 4 + 3 * j]) for j in range(n)])
+            pos += 1 + 3 * n
+        return steps, [int(x) for x in deps.split()], requests, queues
+
+    def abstract(steps, ops, requests, queues):
+        """the final state of the real kernel without comm ids: pairing of requests, queues of requests, values returned"""
+        owner = {}
+        for a, k, c, _, _ in requests:
+            owner.setdefault(c, []).append((a, k))
+        peers = {(a, k): tuple(x for x in owner[c] if x != (a, k)) for a, k, c, _, _ in requests}
+        qs = [[(e[0], e[1]) + tuple(k for (a, k) in owner.get(e[2], []) if a == e[1]) for e in q] for q in queues]
+        rets = {}
+        for st, i in zip(steps, range(0, len(ops), 3)):
+            if st[0] >= 0:
+                rets.setdefault(ops[i], []).append(st[0])
+        return peers, qs, rets
+
+    ncs = ctx.n(120, 2500) if not rep else 0
+    cseqs = [gen_cseq(ctx.rng.randint(2, 12)) for _ in range(ncs)]
+    if rep and rep.get("kind") == "cseq":
+        cseqs = [rep["seq"]]
+    cm = model.run("run_c39_comm_seq", cseqs)
+    plans = [model_ops(a, s) for a, s in zip(cm, cseqs)]
+    cd = model.run("run_c39_comm_deps", [ops for ops, _ in plans])
+    real = drive(["cseq " + " ".join(map(str, ops)) for ops, _ in plans]) if plans else []
+    for (ops, mo), r, seq, mdeps in zip(plans, real, cseqs, cd):
+        dist["comm_seqs"] += 1
+        case = {"kind": "cseq", "seq": seq}
+        steps, deps, requests, queues = parse_real(r)
+        ctx.case(("cseq", tuple(seq)), any(st[4] >= 0 or st[5] >= 0 for st in steps))
+        idof, bad = {}, None
+        for st, m in zip(steps, mo):
+            ret, ty, comm, mb, snd, rcv, n = st[:7]
+            q = [tuple(st[7 + 3 * j:10 + 3 * j]) for j in range(n)]
+            mret, mty, a, rk, mmb, msnd, mrcv, mq = m
+            if rk >= 0:
+                if mty in (9, 10) and (a, rk) not in idof:
+                    idof[(a, rk)] = comm
+                if idof.get((a, rk)) != comm:
+                    bad = "request (%d,%d) is comm %s, the step names comm %d" % (a, rk, idof.get((a, rk)), comm)
+            if [ret, ty, mb] != [mret, mty, mmb] or (ty in (12, 13) and [snd, rcv] != [msnd, mrcv]):
+                bad = "step %s: real ret/type/mailbox/sender/receiver %s, model %s" % (m[2:4], [ret, ty, mb, snd, rcv], [mret, mty, mmb, msnd, mrcv])
+            if [(e[0], e[1]) for e in q] != [(e[0], e[1]) for e in mq] or any(idof.get((e[1], e[2])) != r_[2] for e, r_ in zip(mq, q)):
+                bad = "mailbox %d after step %s: real queue %s, model %s" % (mb, m[2:4], q, mq)
+            if bad:
+                break
+        if len(steps) != len(mo):
+            bad = "%d real steps for %d model steps" % (len(steps), len(mo))
+        if bad:
+            ctx.mismatch("McKernel2.comm", "real MailboxImpl/CommImpl and the model disagree on ops %s: %s" % (ops, bad), case)
+            continue
+        dist["comm_adjacent_verdicts"] += len(deps)
+        if deps != mdeps:
+            ctx.mismatch("depends(comm)", "on ops %s the real dispatch_depends says %s on the adjacent pairs of different actors, the model %s" % (ops, deps, mdeps), case)
+
+    # ---- communications: two co-enabled steps of different actors after a random prefix, both orders on the real kernel
+    cpairs = []
+    if rep and rep.get("kind") == "cpair":
+        cpairs = [rep["cpair"]]
+    elif not rep:
+        fixed = [[[1, 1, 0], [1, 2, 0], [2, 0, 0]], [[1, 0, 0], [1, 2, 0], [2, 1, 0]], [[], [1, 0, 0], [2, 0, 0]], [[], [1, 0, 0], [2, 1, 0]],
+                 [[1, 1, 0], [2, 0, 0], [3, 0, 0]], [[1, 1, 0], [2, 0, 0], [3, 4, 0]], [[1, 1, 0], [2, 0, 0], [3, 5, 0]]]
+        cpairs = list(fixed)
+        for _ in range(ctx.n(300, 5000)):
+            pre = gen_cseq(ctx.rng.randint(0, 8))
+            t = gen_cseq(2)
+            if ctx.rng.random() < 0.6:
+                t[5] = t[2] if t[4] < 2 or t[4] > 3 else t[5]      # same mailbox more often
+            cpairs.append([pre, t[0:3], t[3:6]])
+    # keep the pairs of different actors that are both enabled after the prefix (model), on the enabled prefix
+    probe = model.run("run_c39_comm_seq", [p[0] + p[1] for p in cpairs] + [p[0] + p[2] for p in cpairs])
+    todo = []
+    for i, p in enumerate(cpairs):
+        if p[1][0] == p[2][0]:
+            continue
+        o1, _ = model_ops(probe[i], p[0] + p[1])
+        o2, _ = model_ops(probe[len(cpairs) + i], p[0] + p[2])
+        pre_en = o1[:-3] if o1[-3:] == p[1] and len(o1) >= 3 else None
+        if pre_en is None or o2 != pre_en + p[2]:
+            continue
+        todo.append((p, pre_en))
+    lines = []
+    for p, pre_en in todo:
+        lines += ["cseq " + " ".join(map(str, pre_en + p[1] + p[2])), "cseq " + " ".join(map(str, pre_en + p[2] + p[1]))]
+    real = drive(lines) if lines else []
+    for i, (p, pre_en) in enumerate(todo):
+        dist["comm_pairs"] += 1
+        case = {"kind": "cpair", "cpair": p}
+        ra = parse_real(real[2 * i])
+        rb = parse_real(real[2 * i + 1])
+        ctx.case(("cpair", tuple(pre_en), tuple(p[1]), tuple(p[2])), p[1][1] < 2 or p[2][1] < 2)
+        if len(ra[0]) != len(pre_en) // 3 + 2 or len(rb[0]) != len(ra[0]) or not ra[1]:
+            ctx.mismatch("McKernel2.comm", "the model says %s and %s are both enabled after %s, the real kernel ran %d/%d steps" % (p[1], p[2], pre_en, len(ra[0]), len(rb[0])), case)
+            continue
+        indep = ra[1][-1] == 0
+        dist["comm_pairs_independent"] += int(indep)
+        sa = abstract(ra[0], pre_en + p[1] + p[2], ra[2], ra[3])
+        sb = abstract(rb[0], pre_en + p[2] + p[1], rb[2], rb[3])
+        if indep and sa != sb:
+            tn = {0: "ASYNC_SEND", 1: "ASYNC_RECV", 2: "TEST", 3: "WAIT", 4: "IPROBE", 5: "IPROBE"}
+            ctx.fail("comm-noncommute-%s-%s" % tuple(sorted([tn[p[1][1]], tn[p[2][1]]])),
+                     "the real dispatch_depends declares COMM_%s by actor %d and COMM_%s by actor %d (args %d / %d) independent after the ops %s, but the real "
+                     "kernel ends in different states: %s one way, %s the other" % (tn[p[1][1]], p[1][0], tn[p[2][1]], p[2][0], p[1][2], p[2][2], pre_en, sa, sb), case)
+
+    # ---- thorough: the recorded barrier finding shows in the verdicts of simgrid-mc itself
+    if not ctx.quick and not rep:
+        prog = fw.build_harness("mc4_prog")
+        plat = os.path.join(fw.REPO, "examples", "platforms", "small_platform.xml")
+        verdicts = {}
+        for red in ("dpor", "odpor"):
+            rc, so, se = fw.sh2([fw.SIMGRID_MC, prog, plat, "2", "B0,Q0/M0,B0/B0/B0", "--cfg=model-check/reduction:" + red, "--log=root.thres:info"], timeout=600)
+            verdicts[red] = "violation" if "CRITICAL TRANSITION FOUND" in so + se or "Counter-example" in so + se else ("clean" if "exploration ended" in so + se else "error")
+        ctx.cov["mc_confirmation_barrier"] = verdicts
+        if verdicts.get("dpor") == "violation" and verdicts.get("odpor") == "clean":
+            ctx.fail("barrier-lock-lock-oversubscribed", "simgrid-mc on a barrier of 2 used by 4 actors (program B0,Q0/M0,B0/B0/B0 of harness/mc4_prog): reduction dpor "
+                     "reports the assertion violation (trace 1;3;1;1), reduction odpor explores 4 traces and reports nothing", {"kind": "bpair", "bpair": [2, [3], 1, 2]})
+
     # ---- when the commutation proof no longer checks: look for a concrete state and pair in the model
     if not ok and lut is not None and not rep:
         cases = []
@@ -262,13 +491,24 @@ def run(ctx):
 META = {
     "level": "proof",
     "text": "Coq theorems over the dependency table regenerated from Transition.cpp on every run: dispatch_depends answers the same in both "
-            "orders for all transitions of all types (C39_symmetric); on the mutex and semaphore kernel two enabled transitions of different "
-            "actors that the table declares independent reach the same state in either order and neither disables the other, in every "
-            "well-formed state, well-formedness being invariant (C39_commute_sync_partial, C39_wf_invariant). The model of dispatch_depends is "
-            "tied to the rebuilt library on random synthetic pairs (both orders, real deserialize_transition + dispatch_depends), the kernel "
-            "model on random operation sequences against the real MutexImpl/SemaphoreImpl.",
-    "note": "Partial: commutation is proved for the mutex and semaphore groups only (barrier, condvar x mutex, communications, actor life "
-            "cycle, random are not closed); commutation is not observed on the running application (no state-fingerprint hook).",
-    "technique": "translator (builder chain re-executed -> Coq table) + Coq proofs (case analysis driven by the table) + differential correspondence",
+            "orders for all transitions of all types (C39_symmetric); on a model of the kernel as the checker drives it (mutexes, semaphores, "
+            "barriers, actor creation/join/exit/sleep, random, communications on mailboxes: isend/irecv/test/wait/iprobe) two enabled transitions "
+            "of different actors that the checker declares independent - each described as its observer serializes it right after execution in "
+            "the trace t1;t2, comm ids being any numbering faithful to that trace - reach the same state in either order and neither disables the "
+            "other, in every well-formed state, well-formedness being preserved by every enabled step (C39_commute_partial, C39_xwf_invariant, "
+            "C39_commute_sync_partial, C39_wf_invariant). Where the statement is false the "
+            "refutation is proved and replayed on the real code: two arrivals at an oversubscribed barrier (C39_barrier_lock_lock_refuted, recorded "
+            "finding, excluded by a side condition) and the COMM_TEST rule before fix 786c1edee0 (C39_pinned_test_rule_refuted). The model of "
+            "dispatch_depends is tied to the rebuilt library on random synthetic pairs (both orders, real deserialize_transition + "
+            "dispatch_depends); the kernel model on random operation sequences against the real MutexImpl, SemaphoreImpl, BarrierImpl and "
+            "MailboxImpl/CommImpl in MC mode, each comm step re-described by the real observer's serialize() and every adjacent verdict compared; "
+            "independently of the model, co-enabled barrier and comm steps that the real dispatch_depends declares independent are run in both "
+            "orders on the real kernel objects and must end in the same state.",
+    "note": "Partial: condition variables (and their implicit mutex operations) are not modelled; excluded region: two BARRIER_ASYNC_LOCK on a "
+            "barrier whose round lacks exactly one participant (finding barrier-lock-lock-oversubscribed); comm model without match functions, "
+            "permanent receivers, detached sends, timeouts, TestAny/WaitAny steps, and without the cancellation of pending comms when an actor "
+            "dies; actors end by ACTOR_EXIT; commutation is not observed on the running application (no state-fingerprint hook).",
+    "technique": "translator (builder chain re-executed -> Coq table) + Coq proofs (case analysis driven by the table) + differential correspondence "
+                 "+ both-orders oracle on the real kernel objects",
     "claimed": False,
 }
